@@ -51,8 +51,8 @@ if h:
                 )
 c.finish(
     assumptions=[
-        "Redirect is called for references that have no translation yet and whose source object is neither a reference nor unreadable (outside that, copy_again_refuted shows the second copy of a reference can differ)",
-        "no stream's /Filter or /DecodeParms resolves, at the top or element level, to an object containing a stream (outside that, copy_total_refuted: unbounded recursion)",
+        "Redirect is called for references that have no translation yet (a later Redirect replaces a translation copies may already have used: copy_again_refuted)",
+        "source and call objects are file-shaped: a stream is never a part of another object (PDF 7.3.8; true of everything the Reader returns); needed for copy_total only",
         "target object numbers stay below maxXRefSize (Writer.Alloc panics there by design)",
         "reading the source raises no I/O error (C19); Writer.Put/Reader round trip of the written objects is C02",
         "isomorphism is stated with alias references contracted and /Filter, /DecodeParms inlined, as CopyReference and copyStreamDict define it; a null dictionary entry equals an absent one (the Writer drops it)",
